@@ -14,3 +14,7 @@ chk('C17', 'proof',
     'insert_internal is proved against the whole-view FIFO contract with symbolic cursors and contents (z3) for every capacity/batch in range; Queue and UniformSamplingQueue sampling are proved for every cursor position with symbolic contents and arbitrary PRNG output; the real host-side guards are executed path-exhaustively with symbolic capacity/count; the host-counter lemma links them. Histories follow by induction over the representation invariant (paper lemma).',
     'capacity <= 6 (quick <= 4), batch <= 4, record width 1-2; int32 cursors as mathematical integers; jax.random.randint/split assumed contracts; sharded wrappers only by a bounded stand-in (labelled bounded, one shard)',
     'contract-based deductive verification: representation invariant + abstract view, VCs from jaxprs (z3), cursor case split, path-exhaustive execution of the real host methods', '7 C17')
+chk('C15', 'proof',
+    'Transition contracts of EpisodeWrapper, AutoResetWrapper, EvalWrapper, actor_step and generate_unroll are proved over a havoc environment (arbitrary outputs per member and sub-step) with a SYMBOLIC episode_length, together with the inductive invariant of the wrapped state; this covers every termination pattern and history by induction, beyond the enumerated schedules of the property text.',
+    'action_repeat in {1,2,3}, batch in {1,2}; "exactly episode_length" is read with the proviso action_repeat | episode_length (otherwise the first multiple >= L); acting.py definitions are extracted by ast (module import block dropped); Evaluator metric wiring is a concrete check with np.mean/np.std trusted',
+    'contract-based deductive verification: transition contracts + inductive invariant over a havoc callee (contract true), VCs from the jaxprs of the real wrappers, z3', '7 C15')
